@@ -110,6 +110,7 @@ enum Op {
     Recv(usize, bool),
     DropTx(usize, usize),
     DropRx(usize),
+    RecvAll(usize),
     Barrier(usize),
     CallOnce(usize, usize),
     IsCompleted(usize),
@@ -438,6 +439,7 @@ fn parse_op(w: &str) -> Op {
             Op::DropTx(parts[0].parse().unwrap(), parts[1].parse().unwrap())
         }
         "dr" => Op::DropRx(num(2)),
+        "ri" => Op::RecvAll(num(2)),
         "bw" => Op::Barrier(num(2)),
         "co" => {
             let parts: Vec<&str> = w[2..].split('.').collect();
@@ -811,6 +813,18 @@ async fn run_ops_inner(p: Arc<Prog>, objs: Arc<Vec<Obj>>, b: usize, kind: Kind) 
                 let tx = txs.get_mut(slot).and_then(|t| t.take()).expect("vharness: endpoint dropped");
                 drop(tx);
                 log_op(25, &[]);
+            }
+            Op::RecvAll(ch) => {
+                // `for v in rx`: the owning iterator, which takes the Receiver with it
+                let Obj::Chan(c) = &objs_ref[ch] else { panic!("vharness: not a channel") };
+                let rx = unsafe { &mut *c.rx.get() }.take().expect("vharness: endpoint dropped");
+                let mut it = rx.into_iter();
+                while let Some(v) = it.next() {
+                    log_op(24, &[0, v]);
+                }
+                log_op(24, &[2]);
+                drop(it);
+                log_op(26, &[]);
             }
             Op::DropRx(ch) => {
                 let Obj::Chan(c) = &objs_ref[ch] else { panic!("vharness: not a channel") };
